@@ -62,6 +62,9 @@ func f(name, args string) string {
 	if strings.HasPrefix(name, unknownName) {
 		return "H:" + name + "(" + args + ")"
 	}
+	if name == "t2" && args == callArgs(1) {
+		return "" // a tool may answer with the empty string: that is an answer like any other
+	}
 	return name + "(" + args + ")"
 }
 
@@ -143,6 +146,9 @@ func (t *core) stream(args string) (*schema.StreamReader[string], error) {
 		return nil, err
 	}
 	chunks := []string{t.name + "(", args + ")"}
+	if f(t.name, args) == "" {
+		chunks = []string{"", ""}
+	}
 	if t.w.sp.kind[t.name] == kS1 {
 		chunks = []string{f(t.name, args)}
 	}
